@@ -255,6 +255,9 @@ def _liststyle_fields(w):
     return a['id'], [f['name'] for f in a['variants'][0]['fields']]
 
 
+WORDLIKE = ['Int', 'Float', 'Numeric', 'None', 'Auto', 'Bool']
+
+
 def _style_args(w, b, **params):
     """abstract ListStyle values handed to print_doc on every path of converter b"""
     captured = []
@@ -262,7 +265,9 @@ def _style_args(w, b, **params):
 
     def no_inline(tb):
         return tb.short.endswith('::print_doc') or tb.short.endswith('has_comment_children') or 'get_fold_style' in tb.short or tb.short.startswith('attr::')
-    ip = kf.Interp(w, max_depth=12, max_paths=3000, max_steps=150000)
+    enter = params.pop('enter', ())
+    ip = kf.Interp(w, max_depth=12, max_paths=3000, max_steps=150000,
+                   converter_pred=(lambda tb: kf.default_converter_pred(tb) and not tb.short.endswith(tuple(enter))) if enter else None)
     ip.no_inline = no_inline
     ip.accessor_model = params.pop('accessor_model', None)
     orig_call = ip.call
@@ -370,6 +375,64 @@ def r4_order_and_disambiguation(w):
             r.ok(cons, 'removable' if possible else 'kept')
     if n_k < 40:
         r.bad({'converter': 'convert_parenthesized_impl'}, 'can_omit|not-evaluated', 'paren-removal table could be evaluated for %d kinds only' % n_k, b.loc())
+    # (c2) directly after a `#` in markup or math (`#(1)pt`, `$#(1)x$`) a word-like literal keeps its parentheses: the bare token would fuse with text
+    #      that follows.  Two stages: (B) what context do the sites that see a `#` hand to the conversion of a Parenthesized child that follows it;
+    #      (A) with exactly that context, can the parentheses be omitted.
+    from sites import evaluate_sequence
+    se = sm.SiteEvaluator(w)
+    hash_ctx = {}
+    for cb, ci, kinds in se.converters():
+        if not se.has_node_loop(cb):
+            continue
+        for K in kinds:
+            if 'Hash' not in grammar.CHILDREN.get(K, []) or 'Parenthesized' not in grammar.CHILDREN.get(K, []):
+                continue
+            res = evaluate_sequence(w, cb, ci, K, [Node('child', 'Hash'), Node('child', 'Parenthesized')], ctx=context('Markup' if K == 'Markup' else 'Math', None), with_wholes=True, respect_kinds=True,
+                                    no_inline=lambda tb, cb=cb: (tb.short.endswith('::print_doc') or tb.short.endswith('collect_markup_repr') or 'get_fold_style' in tb.short
+                                                                 or tb.short.startswith('attr::') or tb.short.endswith('has_comment_children')) and tb.id != cb.id)
+            for item in res or []:
+                loop, steps = item[0], item[1]
+                if loop is None or len(steps) < 2:
+                    continue
+                for e in steps[1]:
+                    if e[0] == 'convert' and isinstance(e[2], Node) and e[2].tag == 'child' and e[2].kind == 'Parenthesized':
+                        hash_ctx.setdefault((e[1], e[3], e[4], e[5] if len(e) > 5 else ()), set()).add('%s(%s)' % (last(cb.short), K))
+    if len(hash_ctx) < 3:
+        r.bad({'hash_sites': sorted(map(str, hash_ctx))}, 'can_omit|embedded|sites', 'expected the markup, math, flow and list sites to convert a Parenthesized child after `#`, found %d contexts' % len(hash_ctx))
+    by_short = {x.short: x for x in w.fn_bodies(core)}
+    ENTER = ('::convert_expr', '::convert_expr_impl', '::convert_parenthesized', '::convert_parenthesized_after_hash', '::convert_parenthesized_inner', '::convert_parenthesized_impl',
+             '::convert_pattern', '::convert_arg', '::convert_array_item', '::convert_dict_item')
+    for (fn, mode, supp, extra), where in sorted(hash_ctx.items(), key=str):
+        fb = by_short.get(fn)
+        if fb is None:
+            continue
+        pi = [j for j in range(1, fb.arg_count + 1) if grammar.ast_type_name(fb.locals[j]['ty'])]
+        ic = [j for j in range(1, fb.arg_count + 1) if fb.locals[j]['ty']['s'].endswith('context::Context')]
+        if not pi or not ic:
+            continue
+        tname = grammar.ast_type_name(fb.locals[pi[0]]['ty'])
+        for k in WORDLIKE:
+            def am2(interp, path, args, k=k):
+                if path.endswith("Parenthesized::<'a>::expr"):
+                    return interp.typed('Expr', Node('inner', k))
+                if path.endswith("Parenthesized::<'a>::pattern"):
+                    return interp.typed('Pattern', Node('inner', k))
+                return None
+            payload = kf.Interp(w).typed(tname, Node('parent', 'Parenthesized')) if tname in g['variant_of'] else Node('parent', 'Parenthesized')
+            ctxv = Agg('typstyle_core::pretty::context::Context', None,
+                       [Agg('typstyle_core::pretty::context::Mode', mode, []) if mode else TOP, TOP if supp is None else Const(supp)] + [TOP if x is None else Const(x) for x in extra])
+            styles = _style_args(w, fb, values={pi[0]: payload, ic[0]: ctxv}, accessor_model=am2, enter=ENTER)
+            vs = vals(styles or [], 'omit_delim_flat')
+            cons = {'entry': last(fn), 'context_after_hash': {'mode': mode, 'extra_flags': list(extra)}, 'sites': sorted(where), 'inner_kind': k, 'omit_delim_flat': sorted({repr(v) for v in vs})}
+            key = 'can_omit|embedded|%s|%s|%s' % (last(fn), mode, k)
+            if not styles:
+                r.bad(cons, key + '|not-evaluated', 'paren removal after `#` could not be evaluated for a %s handed to %s' % (k, last(fn)), fb.loc())
+            elif any(not (isinstance(v, Const) and v.v is False) for v in vs):
+                r.bad(cons, key,
+                      'the parentheses around a %s literal that directly follows `#` (sites: %s; converted by %s with mode %s, flags %s) can be removed: text that follows fuses with the '
+                      'bare token (`#(1)pt` -> `#1pt` is one Numeric, `#(none)x` -> `#nonex` an identifier)' % (k, ', '.join(sorted(where)), last(fn), mode, list(extra)), fb.loc())
+            else:
+                r.ok(cons, 'kept after `#`')
     # comments inside: omit flag must be false when has_comment_children is true
     def am_lit(interp, path, args):
         if path.endswith("Parenthesized::<'a>::expr"):
